@@ -157,6 +157,9 @@ def make_histories(p, rng, quick):
             c = rcell(26)
             r = ser.get_resolution(c)
             d = ["uncompact", ["%016x" % c, "%016x" % c] + (["%016x" % ser.cell_to_parent(c)] if r > 0 else []), r + rng.randrange(0, 3)]
+            if rng.random() < 0.25 and r > 1:
+                # a request that must raise half-way through its argument (a later member is finer than the target)
+                d = ["uncompact", ["%016x" % ser.cell_to_parent(c, r - 1), "%016x" % c], r - 1]
         elif k == 10:
             d = ["u64_to_hex", "%016x" % rng.getrandbits(64)]
         elif k == 11:
